@@ -130,6 +130,11 @@ func runC07(o *cli.Opts, run *evid.Run) {
 		try("own-hash", hash, proof, true)
 		try("hash+r", new(big.Int).Add(hash, ref.R), proof, true)
 		try("hash+2r", new(big.Int).Add(hash, new(big.Int).Lsh(ref.R, 1)), proof, true)
+		try("hash-r (negative representative)", new(big.Int).Sub(hash, ref.R), proof, true)
+		try("hash-6r (negative representative)", new(big.Int).Sub(hash, new(big.Int).Mul(big.NewInt(6), ref.R)), proof, true)
+		if hash.Sign() != 0 && new(big.Int).Lsh(hash, 1).Cmp(ref.R) != 0 {
+			try("-hash (another residue)", new(big.Int).Neg(hash), proof, false)
+		}
 		try("hash+1", new(big.Int).Mod(new(big.Int).Add(hash, one), ref.R), proof, false)
 		try("hash-1", new(big.Int).Mod(new(big.Int).Sub(hash, one), ref.R), proof, false)
 		try("perturbed-batch-hash", perturbed, proof, false)
